@@ -149,7 +149,7 @@ class Verifier:
             if x.arg not in values:
                 raise Unsupported(f"contract predicate {fnode.name}: no value for parameter {x.arg}")
             env[x.arg] = values[x.arg]
-        sub.run_body(fnode, Path(path.cond, env))
+        sub.run_body(fnode, Path(path.cond, env, None, path.heap))
         base = len(path.cond)
         disj = []
         for o in sub.outcomes:
@@ -228,13 +228,26 @@ class Verifier:
 
         return handler
 
+    def fresh_value(self, ex, spec, name, node):
+        """an unconstrained symbolic value of type `spec` (a function of the enclosing loop indices, named after the site)"""
+        ctx = tuple(ex.index_ctx)
+        if ctx:
+            suffix = f"@{getattr(node, 'lineno', 0)}_{getattr(node, 'col_offset', 0)}#{'_'.join(map(str, ex.loop_tag))}"
+        else:
+            suffix = fresh_name("")
+        sb = SymBuilder(self.repo, self.ann_resolver, ctx=ctx, suffix=suffix)
+        val = sb.make(spec, name)
+        for w in sb.wf:
+            ex.bg.append(w)
+        return val
+
     def value_of(self, ex, c, fname, values, path):
         fnode = c.funcs[fname]
         sub = Exec(self.repo, c.module, self.handlers, ex.inline, ex.mode, False, ex.feas_timeout_ms, ex.bg,
                    ex.numeric, ex.trace)
         sub.inline_prefixes = ("contracts.",)
         env = {x.arg: values[x.arg] for x in fnode.args.args}
-        sub.run_body(fnode, Path(path.cond, env))
+        sub.run_body(fnode, Path(path.cond, env, None, path.heap))
         from .values import ite
         base = len(path.cond)
         val = None
@@ -270,7 +283,7 @@ class Verifier:
         return vals
 
     # ------------------------------------------------------------------ verification of a function body
-    def verify(self, cname: str, prop: str, types=None, extra_pre=None, tag="", fixed=None):
+    def verify(self, cname: str, prop: str, types=None, extra_pre=None, tag="", fixed=None, prelude=None):
         """Obligations for contract `cname` against the real body of its target.
 
         types: overrides of parameter type specs (e.g. one geometry type at a time)
@@ -303,15 +316,20 @@ class Verifier:
                 values[nm] = NONE
             else:
                 raise Unsupported(f"contract {cname}: no type for parameter {nm}")
+        if cls is not None and not is_class:
+            self._method_cls = c.target.replace(":", ".").rsplit(".", 1)[0]
         bg = list(sb.wf)
         ex = Exec(self.repo, m, self.handlers, self.inline, c.mode, True, 300, bg, self.numeric, self.trace)
         ex.inline_prefixes = ("contracts.",)
         p0 = Path([], {})
+        if prelude is not None:
+            # symbolic set-up executed before the body (e.g. building the adapter object graph with the real __init__s)
+            p0 = prelude(ex, p0, values)
         pre = self.pred(ex, c, "requires", values, p0) if "requires" in c.funcs else z3.BoolVal(True)
         if extra_pre is not None:
             pre = z3.And(pre, extra_pre(values))
         is_gen = (not is_class) and any(isinstance(x, (ast.Yield, ast.YieldFrom)) for x in ast.walk(fnode))
-        start = Path([pre], dict(values), Lst(items=[]) if is_gen else None)
+        start = Path(list(p0.cond) + [pre], dict(values), Lst(items=[]) if is_gen else None, p0.heap)
         if is_class:
             # the target is a pydantic model: run the construction contract (real validators inlined)
             from .models import construct_model
@@ -319,6 +337,8 @@ class Verifier:
             for q, obj in construct_model(ex, start, qual, dict(values), fnode):
                 ex.outcomes.append(Outcome("return", q.cond, val=obj, line=fnode.lineno))
         else:
+            if cls is not None:
+                start.env["__class__"] = Fn("class", c.target.replace(":", ".").rsplit(".", 1)[0])
             ex.run_body(fnode, start)
         obls = []
         base = f"{prop}/{c.target.split(':')[0].replace('soundevent.', '')}.{c.target.split(':')[1]}{tag}"
@@ -335,7 +355,7 @@ class Verifier:
                     vals = dict(values)
                     vals["result"] = res
                     spec_assumed = []  # postconditions of (verified, pure) functions the spec itself calls
-                    goal = self.pred(ex, c, "ensures", vals, Path(o.cond), assumptions_out=spec_assumed)
+                    goal = self.pred(ex, c, "ensures", vals, Path(o.cond, None, None, o.heap), assumptions_out=spec_assumed)
                     parts = _conjuncts(goal)
                     for j, part in enumerate(parts):
                         sfx = f".{j}" if len(parts) > 1 else ""
@@ -345,7 +365,7 @@ class Verifier:
                                        inputs=inputs, meta=dict(contract=cname, line=o.line)))
             elif o.kind == "raise":
                 if o.exc in c.raises:
-                    goal = self.pred_node(ex, c.module, c.raises[o.exc], values, Path(o.cond))
+                    goal = self.pred_node(ex, c.module, c.raises[o.exc], values, Path(o.cond, None, None, o.heap))
                     obls.append(Obligation(f"{base}/exc-{o.exc}@L{o.line}#{k}", "exc", list(ex.bg) + o.cond + [z3.Not(goal)],
                                            inputs=inputs, meta=dict(contract=cname, line=o.line, exc=o.exc)))
                     obls.append(Obligation(f"{base}/cover-raise-{o.exc}@L{o.line}#{k}", "cover", list(ex.bg) + o.cond, expect="sat",
